@@ -376,6 +376,7 @@ class EllipsoidalEnergyDescription(StrainEnergyDescriptionBase):
         self.midThetaGrid = self.midThetaGrid.ravel()
         self.midWeights = np.sin(self.midThetaGrid)
         self.dA = dtheta*dphi if assumeSymmetric else 1/8 * dtheta*dphi
+        self._singleOctant = assumeSymmetric
 
     def setLebedevIntegration(self, order = 'high'):
         '''
@@ -400,6 +401,7 @@ class EllipsoidalEnergyDescription(StrainEnergyDescriptionBase):
 
         self.midPhiGrid, self.midThetaGrid, self.midWeights = loadPoints(order)
         self.dA = np.pi/2
+        self._singleOctant = False
 
     def _n(self, phi, theta):
         '''
@@ -505,6 +507,13 @@ class EllipsoidalEnergyDescription(StrainEnergyDescriptionBase):
         #Tensor product (D_ijkl = intergral(ohm_ij * n_k * n_l * endTerm))
         #For summing over grid points (D_ijkl = ohm_ij * nProd_kln * endTerm_n)
         d = np.tensordot(ohm, np.multiply(nProd, endTerm * self.midWeights), axes=[[2], [2]])
+
+        #Terms where an axis appears an odd number of times in ijkl cancel between the 8 quadrants,
+        #but not inside a single one, so they have to be removed when only one quadrant is integrated
+        if self._singleOctant:
+            ijkl = np.indices(d.shape)
+            for axis in range(3):
+                d[np.sum(ijkl == axis, axis=0) % 2 == 1] = 0
 
         #Multiply by differential area and across the 8 quadrants
         return 8*d*self.dA
